@@ -100,6 +100,8 @@ struct Job {
     macro_map: BTreeMap<String, String>,
     #[serde(default)]
     expr_map: Vec<(String, String)>,
+    #[serde(default)]
+    type_map: Vec<(String, String)>,
 }
 
 #[derive(Serialize, Default)]
@@ -247,6 +249,7 @@ impl VisitMut for Numberer {
 }
 
 struct Rewriter<'a> {
+    type_map: &'a [(String, String)],
     expr_map: &'a [(String, String)],
     spec: &'a FnSpec,
     renames: &'a [(Vec<String>, Vec<String>)],
@@ -407,6 +410,21 @@ impl<'a> VisitMut for Rewriter<'a> {
                 break;
             }
         }
+    }
+
+    fn visit_type_mut(&mut self, t: &mut syn::Type) {
+        let nt = norm(&t.to_token_stream());
+        for (from, to) in self.type_map {
+            if &nt == from {
+                if let Ok(r) = syn::parse_str::<syn::Type>(to) {
+                    let line = line_of(t);
+                    *t = r;
+                    self.logr("R11", line, format!("type {} -> {}", from, to));
+                    return;
+                }
+            }
+        }
+        visit_mut::visit_type_mut(self, t);
     }
 
     fn visit_block_mut(&mut self, b: &mut Block) {
@@ -739,6 +757,7 @@ struct Ctx<'a> {
     renames: Vec<(Vec<String>, Vec<String>)>,
     macro_map: &'a BTreeMap<String, String>,
     expr_map: Vec<(String, String)>,
+    type_map: Vec<(String, String)>,
 }
 
 /// Processes one fn (sig + block). Returns substitutions to perform after formatting.
@@ -768,6 +787,7 @@ fn process_fn(
         let pins_norm: Vec<String> = spec.pins.iter().map(|p| norm_str(&p.original).unwrap_or_default()).collect();
         let mut rw = Rewriter {
             expr_map: &ctx.expr_map,
+            type_map: &ctx.type_map,
             spec,
             renames: &ctx.renames,
             macro_map: ctx.macro_map,
@@ -1070,6 +1090,12 @@ fn clean_type_item(it: &mut Item, keep: &[String], log: &mut Vec<RewriteLog>, dr
         }
         Item::Const(c) => {
             c.attrs.retain(|a| !is_doc_or_dropped_attr(a));
+            if let syn::Type::Reference(r) = &mut *c.ty {
+                if r.lifetime.is_none() {
+                    r.lifetime = Some(parse_quote!('static));
+                    log.push(RewriteLog { rule: "R17".into(), line, detail: format!("const {}: elided 'static lifetime made explicit", c.ident) });
+                }
+            }
             return extra;
         }
         Item::Type(c) => {
@@ -1149,6 +1175,7 @@ fn process_unit(job: &Job, ctx: &Ctx, u: &UnitReq, uidx: usize, vac: bool) -> Un
         pre.push_str(&format!("#[{}]\n", a));
     }
     let text: String;
+    let mut post_text = String::new();
     match u.kind.as_str() {
         "fn" | "item" => {
             let (modpath, name) = u.path.split_at(u.path.len() - 1);
@@ -1181,10 +1208,21 @@ fn process_unit(job: &Job, ctx: &Ctx, u: &UnitReq, uidx: usize, vac: bool) -> Un
                 process_fn(ctx, u, &uid, &mut f.attrs, &mut f.sig, &mut f.block, spec, &mut out, &mut subs);
                 text = f.to_token_stream().to_string();
             } else {
-                let extra = clean_type_item(&mut it, &keep, &mut out.rewrites, &u.drop_fields);
+                // R1: variants carrying thiserror's #[from] (collected before attributes are dropped)
+                let mut from_variants: Vec<String> = vec![];
+                if let Item::Enum(en) = &it {
+                    for v in en.variants.iter() {
+                        let has = v.fields.iter().any(|f| f.attrs.iter().any(|a| a.path().is_ident("from")));
+                        if has && v.fields.len() == 1 {
+                            from_variants.push(v.ident.to_string());
+                        }
+                    }
+                }
+                let mut extra = clean_type_item(&mut it, &keep, &mut out.rewrites, &u.drop_fields);
                 // path renames inside type declarations
                 let mut rw = Rewriter {
                     expr_map: &ctx.expr_map,
+            type_map: &ctx.type_map,
                     spec: &default_spec,
                     renames: &ctx.renames,
                     macro_map: ctx.macro_map,
@@ -1215,12 +1253,24 @@ fn process_unit(job: &Job, ctx: &Ctx, u: &UnitReq, uidx: usize, vac: bool) -> Un
                     _ => {}
                 }
                 out.rewrites.extend(rw.log);
-                let mut t = it.to_token_stream().to_string();
-                for e in extra {
-                    t.push_str("\n");
-                    t.push_str(&e);
+                if let Item::Enum(en) = &it {
+                    for v in en.variants.iter() {
+                        if from_variants.contains(&v.ident.to_string()) {
+                            let ty = v.fields.iter().next().unwrap().ty.to_token_stream().to_string();
+                            let en_id = &en.ident;
+                            let vid = &v.ident;
+                            extra.push(format!(
+                                "impl vstd::std_specs::convert::FromSpecImpl<{ty}> for {en_id} {{\n    open spec fn obeys_from_spec() -> bool {{ true }}\n    open spec fn from_spec(e: {ty}) -> Self {{ {en_id}::{vid}(e) }}\n}}\nimpl From<{ty}> for {en_id} {{\n    fn from(e: {ty}) -> (r: Self)\n        ensures r == {en_id}::{vid}(e),\n    {{ {en_id}::{vid}(e) }}\n}}"
+                            ));
+                            out.rewrites.push(RewriteLog { rule: "R1".into(), line: line_of(v), detail: format!("thiserror #[from] on {}::{} -> generated From + FromSpecImpl", en_id, vid) });
+                        }
+                    }
                 }
-                text = t;
+                text = it.to_token_stream().to_string();
+                for e in extra {
+                    post_text.push_str("\n");
+                    post_text.push_str(&e);
+                }
             }
         }
         "method" | "impl" => {
@@ -1325,6 +1375,7 @@ fn process_unit(job: &Job, ctx: &Ctx, u: &UnitReq, uidx: usize, vac: bool) -> Un
             // renames in the impl header
             let mut rw = Rewriter {
                 expr_map: &ctx.expr_map,
+            type_map: &ctx.type_map,
                 spec: &default_spec,
                 renames: &ctx.renames,
                 macro_map: ctx.macro_map,
@@ -1365,7 +1416,7 @@ fn process_unit(job: &Job, ctx: &Ctx, u: &UnitReq, uidx: usize, vac: bool) -> Un
     };
     let formatted = fix_vxret(&formatted);
     match apply_subs(&formatted, &subs) {
-        Ok(t) => out.text = format!("{}{}", pre, t),
+        Ok(t) => out.text = format!("{}{}{}", pre, t, post_text),
         Err(e) => {
             out.error = Some(match out.error.take() { Some(x) => format!("{}; {}", x, e), None => e });
             out.text = formatted;
@@ -1469,7 +1520,8 @@ fn main() {
         })
         .collect();
     let expr_map: Vec<(String, String)> = job.expr_map.iter().map(|(a, b)| (norm_str(a).unwrap_or_default(), b.clone())).collect();
-    let ctx = Ctx { renames, macro_map: &job.macro_map, expr_map };
+    let type_map: Vec<(String, String)> = job.type_map.iter().map(|(a, b)| (norm_str(a).unwrap_or_default(), b.clone())).collect();
+    let ctx = Ctx { renames, macro_map: &job.macro_map, expr_map, type_map };
     let mut outs = vec![];
     for (i, u) in job.units.iter().enumerate() {
         let mut o = process_unit(&job, &ctx, u, i, false);
